@@ -103,6 +103,72 @@ Proof.
   symmetry. apply lower_c_idem.
 Qed.
 
+Lemma mk_template_ok m cls s r :
+  mk_template m cls s = Ok r -> r = YTemplate cls s /\ parses m s = true.
+Proof. unfold mk_template. destruct (parses m s); intro H; [inversion H; auto|discriminate H]. Qed.
+
+Lemma build_int_kind m item r :
+  build_int_template m item = Ok r ->
+  (exists z, r = YNative (YInt z)) \/ (exists t, r = YTemplate c_IntTemplate t /\ parses m t = true).
+Proof.
+  unfold build_int_template. destruct item; intro H; try discriminate H; try (inversion H; eauto; fail).
+  destruct (parse_int s); [inversion H; eauto|]. apply mk_template_ok in H as [E P]. eauto.
+Qed.
+
+Lemma build_float_kind m item r :
+  build_float_template m item = Ok r ->
+  (exists f t, r = YNative (YFloat f t)) \/ (exists t, r = YTemplate c_FloatTemplate t /\ parses m t = true).
+Proof.
+  unfold build_float_template. destruct item; intro H; try discriminate H; try (inversion H; eauto; fail).
+  - destruct (fl_has_bad (fl_of_Z z)); [discriminate H|inversion H; eauto].
+  - destruct (parse_float s) as [f|]; [destruct (fl_has_bad f); [discriminate H|inversion H; eauto]|].
+    apply mk_template_ok in H as [E P]. eauto.
+Qed.
+
+Lemma has_int_tpl m r :
+  (exists z, r = YNative (YInt z)) \/ (exists t, r = YTemplate c_IntTemplate t /\ parses m t = true) ->
+  match r with
+  | YNone | YNative (YInt _) => true
+  | YTemplate c t => zs_eqb c c_IntTemplate && parses m t
+  | _ => false
+  end = true.
+Proof. intros [[z E]|[t [E P]]]; subst r; [reflexivity|]. rewrite P. reflexivity. Qed.
+
+Lemma has_float_tpl m r :
+  (exists f t, r = YNative (YFloat f t)) \/ (exists t, r = YTemplate c_FloatTemplate t /\ parses m t = true) ->
+  match r with
+  | YNone | YNative (YFloat _ _) => true
+  | YTemplate c t => zs_eqb c c_FloatTemplate && parses m t
+  | _ => false
+  end = true.
+Proof. intros [[f [t E]]|[t [E P]]]; subst r; [reflexivity|]. rewrite P. reflexivity. Qed.
+
+Lemma fl_clamp01_range f : gain_ok (fl_clamp01 f) = true \/ fl_clamp01 f = FBad.
+Proof.
+  unfold gain_ok. destruct f as [q| |[]|]; cbn; auto.
+  destruct (Qle_bool q 0) eqn:E0; [left; reflexivity|].
+  destruct (Qle_bool 1 q) eqn:E1; [left; reflexivity|].
+  left. cbn. apply andb_true_iff. split.
+  - apply Qle_bool_iff. destruct (Qlt_le_dec 0 q) as [L|L]; [apply Qlt_le_weak; exact L|].
+    apply Qle_bool_iff in L. rewrite L in E0. discriminate E0.
+  - apply Qle_bool_iff. destruct (Qlt_le_dec q 1) as [L|L]; [apply Qlt_le_weak; exact L|].
+    apply Qle_bool_iff in L. rewrite L in E1. discriminate E1.
+Qed.
+
+Lemma string_to_gain_range item f :
+  string_to_gain item = Ok f -> gain_ok f = true.
+Proof.
+  unfold string_to_gain. destruct (py_str item) as [s0|]; [|intro H; discriminate H].
+  destruct (starts_with (lower s0) s_minus_inf); [intro H; inversion H; reflexivity|].
+  destruct (ends_with (lower s0) s_db).
+  { destruct (parse_float _); intro H; discriminate H. }
+  destruct (parse_float (lower s0)) as [g|]; [|intro H; inversion H; reflexivity].
+  destruct (fl_has_bad g) eqn:B; intro H; [discriminate H|]. inversion H; subst f.
+  destruct (fl_clamp01_range g) as [R|R]; [exact R|].
+  destruct g as [q| |[]|]; cbn in R; try discriminate R; try discriminate B.
+  destruct (Qle_bool q 0); [discriminate R|]. destruct (Qle_bool 1 q); discriminate R.
+Qed.
+
 Lemma validate_scalar_sound m k : forall param item r,
   validate_scalar m k param item = Ok r -> has_kind m k param r = true.
 Proof.
@@ -152,7 +218,7 @@ Proof.
   - (* KEnum *)
     destruct param as [p|]; [|discriminate H].
     set (values := split_on 44 (lower p)) in *.
-    destruct (match item with YStr s => YStr (lower s) | _ => item end) as [| b | z | f t | s | l | d | l | s | s n] eqn:Ei;
+    destruct (match item with YStr s => YStr (lower s) | _ => item end) as [| b | z | f t | s | l | d | l | s | s n | nv | tc tt] eqn:Ei;
       try discriminate H.
     + (* None *) destruct (mem_str s_none values); [inversion H; reflexivity|].
       cbn in H. destruct (mem_str s_None values) eqn:E2; [inversion H; assumption|discriminate H].
@@ -175,6 +241,35 @@ Proof.
     destruct item; try (apply Hin; apply (IHk _ _ _ H)).
     destruct (starts_with s [40] && ends_with s [41]); [inversion H; reflexivity|].
     apply Hin; apply (IHk _ _ _ H).
+  - (* KTplInt *)
+    destruct item; try (inversion H; reflexivity); cbn [str_or_int] in H; try discriminate H;
+      apply (has_int_tpl _ _ (build_int_kind _ _ _ H)).
+  - (* KTplFloat *)
+    destruct item; try (inversion H; reflexivity); try discriminate H;
+      apply (has_float_tpl _ _ (build_float_kind _ _ _ H)).
+  - (* KTplBool *)
+    destruct item; try (inversion H; reflexivity); try discriminate H.
+    apply mk_template_ok in H as [E P]. subst r. rewrite P. reflexivity.
+  - (* KTplSecs *)
+    destruct item; try (inversion H; reflexivity); cbn [str_or_int] in H; try discriminate H;
+      match type of H with context [string_to_secs ?x] => destruct (string_to_secs x) as [f0|[]] end;
+      try discriminate H;
+      try (destruct (fl_has_bad f0); [discriminate H|inversion H; reflexivity]);
+      apply (has_float_tpl _ _ (build_float_kind _ _ _ H)).
+  - (* KTplMs *)
+    destruct item; try (inversion H; reflexivity); cbn [str_or_int] in H; try discriminate H;
+      match type of H with context [string_to_ms ?x] => destruct (string_to_ms x) as [z0|[]] end;
+      try discriminate H; try (inversion H; reflexivity);
+      apply (has_int_tpl _ _ (build_int_kind _ _ _ H)).
+  - (* KTplStr *)
+    destruct item; try (inversion H; reflexivity);
+      match type of H with context [py_str ?x] => destruct (py_str x) as [s0|] end; try discriminate H;
+      (destruct (mem_z 123 s0) eqn:E1; [inversion H; cbn; rewrite E1; reflexivity|]);
+      (destruct (starts_with s0 [40] && ends_with s0 [41]); [|inversion H; reflexivity]);
+      apply mk_template_ok in H as [E P]; subst r; cbn; rewrite P; rewrite ?orb_true_r; reflexivity.
+  - (* KGain *)
+    destruct item; try (inversion H; reflexivity);
+      apply bindR_ok in H as [g0 [Hg H]]; inversion H; apply (string_to_gain_range _ _ Hg).
   - discriminate H.
   - discriminate H.
 Qed.
@@ -788,6 +883,91 @@ Proof.
   apply (chain2 86400 1000 (86400 # 1) (1000 # 1) x N fl_86400 fl_1000); try assumption; try lra; rewrite <- HN; ring.
 Qed.
 
+(* FRACTIONAL products (binary rounding matters): for every decimal value x (zero, or at least 10^-9) with
+   x*unit < 2^49 the result is an integer within 3/4 ms of the exact value times unit *)
+Lemma time_float_units_frac b c suf unit x :
+  is_num_end c = true ->
+  unit_ms (upper suf) = Some unit ->
+  e_float_of_str (upper b ++ [c]) = Ok (fnum x) ->
+  (x == 0 \/ XLO <= x)%Q -> (x * unit < P49)%Q ->
+  exists N, string_to_ms (YStr ((b ++ [c]) ++ suf)) = Ok N /\ (Qabs (inject_Z N - x * unit) <= 3 # 4)%Q.
+Proof.
+  intros Hc Hu Hf Hx Hlt. cbn [string_to_ms py_str]. rewrite (upper_body _ _ _ Hc).
+  unfold unit_ms in Hu.
+  destruct (zs_eqb (upper suf) [83] || zs_eqb (upper suf) [83;69;67])%bool eqn:E1.
+  { inversion Hu; subst unit. apply orb_true_iff in E1 as [E|E]; apply zs_eqb_spec in E; rewrite E;
+      [rewrite (chain_S _ _ Hc)|rewrite (chain_SEC _ _ Hc)]; rewrite Hf;
+      apply (chain1f 1000 (1000 # 1)%Q x fl_1000); try assumption; lra. }
+  destruct (zs_eqb (upper suf) [77]) eqn:E2.
+  { inversion Hu; subst unit. apply zs_eqb_spec in E2. rewrite E2, (chain_M _ _ Hc), Hf.
+    assert (E : (x * (60000 # 1) == x * (60 # 1) * (1000 # 1))%Q) by ring.
+    destruct (chain2f 60 1000 (60 # 1) (1000 # 1) x fl_60 fl_1000) as [N [HN HB]]; try assumption; try lra.
+    exists N. split; [exact HN|]. rewrite E. exact HB. }
+  destruct (zs_eqb (upper suf) [72]) eqn:E3.
+  { inversion Hu; subst unit. apply zs_eqb_spec in E3. rewrite E3, (chain_H _ _ Hc), Hf.
+    assert (E : (x * (3600000 # 1) == x * (3600 # 1) * (1000 # 1))%Q) by ring.
+    destruct (chain2f 3600 1000 (3600 # 1) (1000 # 1) x fl_3600 fl_1000) as [N [HN HB]]; try assumption; try lra.
+    exists N. split; [exact HN|]. rewrite E. exact HB. }
+  destruct (zs_eqb (upper suf) [68]) eqn:E4; [|discriminate Hu].
+  inversion Hu; subst unit. apply zs_eqb_spec in E4. rewrite E4, (chain_D _ _ Hc), Hf.
+  assert (E : (x * (86400000 # 1) == x * (86400 # 1) * (1000 # 1))%Q) by ring.
+  destruct (chain2f 86400 1000 (86400 # 1) (1000 # 1) x fl_86400 fl_1000) as [N [HN HB]]; try assumption; try lra.
+  exists N. split; [exact HN|]. rewrite E. exact HB.
+Qed.
+
+(* the same WITHOUT the hypothesis on float(): for a plain decimal text  d+ "." d*  the model's float() is fnum of
+   the exact decimal rational (DecText.parse_decimal), so the statement is about the text itself *)
+From C12 Require Import DecText.
+
+Lemma forallb_num_end_upper l : forallb is_num_end l = true -> upper l = l.
+Proof.
+  induction l as [|a l IH]; cbn [forallb upper map]; [reflexivity|]. intro H.
+  apply andb_true_iff in H as [Ha Hl]. fold (upper l). rewrite (IH Hl), (upper_num_end _ Ha). reflexivity.
+Qed.
+
+Lemma dec_text_num_end c ip fp :
+  is_digit c = true -> all_digits ip = true -> all_digits fp = true ->
+  forallb is_num_end (dec_text (c :: ip) fp) = true.
+Proof.
+  intros Hc Hi Hf. unfold dec_text. cbn [app forallb]. unfold is_num_end at 1. rewrite Hc. cbn [orb andb].
+  unfold all_digits in *. rewrite forallb_forall in Hi, Hf.
+  rewrite forallb_app. apply andb_true_iff; split.
+  - apply forallb_forall. intros y Hy. unfold is_num_end. rewrite (Hi y Hy). reflexivity.
+  - cbn [forallb]. apply andb_true_iff; split; [reflexivity|].
+    apply forallb_forall. intros y Hy. unfold is_num_end. rewrite (Hf y Hy). reflexivity.
+Qed.
+
+Lemma injZ_close N M : (Qabs (inject_Z N - inject_Z M) <= 3 # 4)%Q -> N = M.
+Proof.
+  intro H. apply Qabs_Qle_condition in H as [H1 H2].
+  unfold Qle, Qminus, Qplus, Qopp, inject_Z in *. cbn in *. lia.
+Qed.
+
+Lemma time_decimal_l c ip fp suf unit :
+  is_digit c = true -> all_digits ip = true -> all_digits fp = true ->
+  (length (c :: ip) + length fp <= 400)%nat ->
+  unit_ms (upper suf) = Some unit ->
+  (dec_q (c :: ip) fp == 0 \/ XLO <= dec_q (c :: ip) fp)%Q -> (dec_q (c :: ip) fp * unit < P49)%Q ->
+  exists N, string_to_ms (YStr (dec_text (c :: ip) fp ++ suf)) = Ok N /\
+            (Qabs (inject_Z N - dec_q (c :: ip) fp * unit) <= 3 # 4)%Q /\
+            (forall M, (dec_q (c :: ip) fp * unit == inject_Z M)%Q -> N = M).
+Proof.
+  intros Hc Hi Hf Hlen Hu Hx Hlt.
+  pose proof (dec_text_num_end _ _ _ Hc Hi Hf) as Hall.
+  assert (Hne : dec_text (c :: ip) fp <> []) by (unfold dec_text; cbn; discriminate).
+  destruct (exists_last Hne) as [b [a E]].
+  assert (Hb : forallb is_num_end b = true /\ is_num_end a = true).
+  { rewrite E, forallb_app in Hall. apply andb_true_iff in Hall as [A B]. cbn in B.
+    rewrite andb_true_r in B. auto. }
+  destruct Hb as [Hb Ha].
+  assert (Hfl : e_float_of_str (upper b ++ [a]) = Ok (fnum (dec_q (c :: ip) fp))).
+  { rewrite (forallb_num_end_upper _ Hb), <- E. unfold e_float_of_str.
+    rewrite (parse_decimal _ _ _ Hc Hi Hf Hlen). reflexivity. }
+  destruct (time_float_units_frac b a suf unit _ Ha Hu Hfl Hx Hlt) as [N [HN HB]].
+  exists N. rewrite E. split; [exact HN|]. split; [exact HB|].
+  intros M HM. apply injZ_close. rewrite <- HM. exact HB.
+Qed.
+
 (* ... and for the integer-valued suffixes ms / msec *)
 Lemma time_int_units b c suf N :
   is_num_end c = true ->
@@ -834,6 +1014,17 @@ Proof.
   intro H. pose proof (validate_item_sound _ _ _ _ H) as T.
   unfold validate_item in H. cbn in H. destruct (is_pow2 z); [|discriminate H]. inversion H; subst r.
   unfold has_type in T. cbn in T. exact T.
+Qed.
+
+(* gain: the documented range is 0.0 .. 1.0; min(max(nan, 0.0), 1.0) is nan *)
+Lemma gain_range_refuted_l : exists m item r, validate_item m n_gain item = Ok r /\ is_gain r = false.
+Proof. exists [], (YStr [110;97;110]), (YFloat FNaN []). split; vm_compute; reflexivity. Qed.
+
+Lemma gain_range_partial_l m item f t :
+  validate_item m n_gain item = Ok (YFloat f t) -> f <> FNaN -> is_gain (YFloat f t) = true.
+Proof.
+  intros H Hn. pose proof (validate_item_sound _ _ _ _ H) as T. unfold has_type in T. cbn in T.
+  unfold gain_ok in T. unfold is_gain. destruct f; try exact T. contradiction.
 Qed.
 
 (* 7. the hypotheses of the theorems are satisfiable on non-trivial inputs                           *)
@@ -889,6 +1080,34 @@ Example ex_history :
      Ok (YDict [(YStr [97], YStr [120]); (YStr [98], YList [])]);
      Ok (YDict [(YStr [97], YInt 7); (YStr [98], YList [])])].
 Proof. split; [intros n sp H; discriminate H|vm_compute; reflexivity]. Qed.
+
+(* "0.0005s": x = 1/2000, x*1000 = 1/2 exactly between 0 and 1 (binary rounding decides); "2.675m" *)
+Example ex_time_frac :
+  e_float_of_str (upper [48;46;48;48;48] ++ [53]) = Ok (fnum (1 # 2000)) /\
+  (XLO <= 1 # 2000)%Q /\ ((1 # 2000) * (1000 # 1) < P49)%Q /\
+  string_to_ms (YStr [48;46;48;48;48;53;115]) = Ok 0 /\
+  string_to_ms (YStr [50;46;54;55;53;109]) = Ok 160500.
+Proof. repeat split; try (vm_compute; reflexivity); vm_compute; discriminate. Qed.
+
+(* "2.675m": c = "2", ip = "", fp = "675"; 2.675 * 60000 = 160500 *)
+Definition ex_two : str := [50].
+Definition ex_675 : str := [54;55;53].
+Example ex_time_decimal :
+  dec_text ex_two ex_675 = [50;46;54;55;53] /\ (dec_q ex_two ex_675 == 2675 # 1000)%Q /\
+  (XLO <= dec_q ex_two ex_675)%Q /\ (dec_q ex_two ex_675 * (60000 # 1) < P49)%Q /\
+  (dec_q ex_two ex_675 * (60000 # 1) == inject_Z 160500)%Q.
+Proof. repeat split; try (vm_compute; reflexivity); vm_compute; discriminate. Qed.
+
+Example ex_gain :
+  validate_item [] n_gain (YStr [48;46;50;53]) = Ok (YFloat (FNum (1 # 4)) []) /\
+  validate_item [] n_gain (YInt 7) = Ok (YFloat (FNum 1) []) /\
+  validate_item [([35;101;120;112;114], [[97;32;43;32;49]])] n_template_int (YStr [97;32;43;32;49]) =
+    Ok (YTemplate c_IntTemplate [97;32;43;32;49]) /\
+  validate_item [] n_template_int (YStr [97;32;43]) = Err EAssert /\
+  validate_item [] n_template_ms (YStr [50;115]) = Ok (YNative (YInt 2000)) /\
+  string_to_event_list (YStr [101;118;49;123;120;62;49;44;50;125;44;32;101;50]) =
+    Ok [YStr [101;118;49;123;120;62;49;44;50;125]; YStr [101;50]].     (* "ev1{x>1,2}, e2" *)
+Proof. vm_compute. repeat split. Qed.
 
 Example ex_store :
   let st := {| st_specs := [([115], ex_spec)]; st_cache := [] |} in
